@@ -128,7 +128,7 @@ def run_case(case):
         tm = timings(SUBSCRIBE_TTL=ttl, SUBSCRIBE_REFRESH_INTERVAL=refresh)
         tm0, apply_timings = late(tm, bool(case.get("late")))   # timings given to the constructor or assigned afterwards
         prot = make_sd(sim, tm0)
-        apply_timings()
+        apply_timings(prot)
         sub = prot.subscriber
         requested = set()      # (eventgroup index, server index)
         running = [False]
